@@ -35,7 +35,7 @@ Print Assumptions applied_agree.
 (* the commit index of a node only grows, except when that node restarts *)
 Theorem commit_monotone :
   forall V s s' n,
-    step V s s' -> (commit (st s n) <= commit (st s' n))%nat \/ s' = do_crash n s.
+    step V s s' -> (commit (st s n) <= commit (st s' n))%nat \/ exists c, s' = do_crash n c s.
 Proof. exact RaftThms.commit_monotone. Qed.
 Print Assumptions commit_monotone.
 
